@@ -30,4 +30,16 @@ theorem idle_timeout_refused_iff_unrepresentable (ms : Nat) :
 /-- ALPN offered and required by every default builder path is `h3` -/
 theorem alpn_is_h3 : Generated.WEBTRANSPORT_ALPN = "h3" := by decide
 
+/-- every default TLS configuration the library builds (client and server) offers TLS 1.3 and
+nothing else, and exactly one ALPN protocol, the WebTransport one (`alpn_is_h3`) -/
+theorem tls13_only_alpn_h3_only :
+    Generated.TLS_PROTOCOL_VERSIONS = [["TLS13"], ["TLS13"]] ∧
+    Generated.TLS_ALPN_LISTS = [["WEBTRANSPORT_ALPN.to_vec()"], ["WEBTRANSPORT_ALPN.to_vec()"]] := by decide
+
+/-- the keep-alive interval and the migration setting reach quinn exactly as requested
+(structure of the builder methods, read from config.rs on every run); migration is on by default -/
+theorem keep_alive_and_migration_passed_unchanged :
+    Generated.KEEP_ALIVE_PASSED_UNCHANGED = true ∧ Generated.MIGRATION_PASSED_UNCHANGED = true ∧
+    Generated.MIGRATION_DEFAULT = true := by decide
+
 end Props.C20
